@@ -14,6 +14,7 @@ The catalogue `Cat` is what a client who only remembers its accepted requests ex
   * a start is attempted when a task becomes enabled, is renamed while enabled, is re-synchronised by a template
     update while enabled, and for every enabled task at a restart; `started` is the outcome of the most recent
     attempt (the oracle `startOK`); a task is executing iff it is enabled and started;
+  * a task that dies at run time (`Op.die`) is no longer started, hence not executing, until its next start;
   * an accepted template update re-synchronises ALL tasks whose template it is; a rejected one NONE.
 The request/answer vocabulary (`Op`, `TaskReq`, `Resp`, `Task`, the oracle `Env`/`startOK`) is shared with the model.
 Core Lean only.
@@ -106,6 +107,8 @@ def accept (env : Env) (fail : List String) (c : Cat) : Op → Cat
     { c with started := fun i => match c.tasks i with
         | some t => if t.enabled then startOK env fail i t else c.started i
         | none => c.started i }
+  -- the task died on its own: it is no longer "started" (its definition and status stay)
+  | .die id => setStarted c id false
 
 /-- The catalogue after a request with the given answer: accepted ⇒ its effect, rejected ⇒ nothing. -/
 def specStep (env : Env) (fail : List String) (c : Cat) (op : Op) (resp : Resp) : Cat :=
